@@ -156,3 +156,21 @@ Theorem C01_agreement_for_the_model_any_order : forall cap lam,
     (incl D2 D1 -> snd (abft_run cap lam vals D1) = snd (abft_run cap lam vals D2)).
 Proof. exact link_C01_raw. Qed.
 Print Assumptions C01_agreement_for_the_model_any_order.
+
+(* C01 across epochs for the model of the code (proofs/LinkEpochsCor.v): two instances that are fed, epoch
+   by epoch, the same event sets in different parents-first orders emit the same blocks, seal at the same
+   blocks and go through the same validator sets. *)
+From LV Require Import proofs.LinkEpoch proofs.LinkSeal proofs.LinkEpochs proofs.LinkEpochsCor proofs.LinkEpochsExample.
+Theorem C01_agreement_for_the_model_across_epochs : forall cap lam seal polr vals Ds Ds' K,
+  epochs_valid polr vals 1 Ds Ds' -> epochs_ok seal polr vals 1 Ds -> epochs_ok seal polr vals 1 Ds' ->
+  (forall D e, In D Ds -> In e D -> id_fresh K (eid (fe e))) -> (forall D e, In D Ds' -> In e D -> id_fresh K (eid (fe e))) ->
+  N.of_nat (total_events Ds) <= K -> N.of_nat (total_events Ds') <= K -> K < 2 ^ 192 ->
+  map epoch_blocks (model_epochs cap lam (mk_policy seal polr vals 1 (length Ds)) polr (start 1 vals) vals 1 Ds) =
+  map epoch_blocks (model_epochs cap lam (mk_policy seal polr vals 1 (length Ds')) polr (start 1 vals) vals 1 Ds').
+Proof. exact link_epochs_same_sets. Qed.
+Example C01_across_epochs_example :
+  epochs_valid 0 ex_vals 1 me_Ds me_Ds' /\ me_Ds <> me_Ds' /\ epochs_ok 1 0 ex_vals 1 me_Ds /\ epochs_ok 1 0 ex_vals 1 me_Ds' /\
+  map epoch_blocks (model_epochs 200 (fun _ => 0) (mk_policy 1 0 ex_vals 1 2) 0 (start 1 ex_vals) ex_vals 1 me_Ds) =
+  map epoch_blocks (model_epochs 200 (fun _ => 0) (mk_policy 1 0 ex_vals 1 2) 0 (start 1 ex_vals) ex_vals 1 me_Ds').
+Proof. exact (conj me_same_sets (conj me_orders_differ (conj me_ok (conj me_ok' me_agreement)))). Qed.
+Print Assumptions C01_agreement_for_the_model_across_epochs.
